@@ -2,7 +2,7 @@
    (2 examples, |P| = 1, dense rows of M with default 1, identity kernel matrix), and small witnesses. *)
 From Coq Require Import QArith Qminmax Lqa Arith Bool List Lia.
 From SharkV Require Import C08Model C08Defs C08Aux C08Proofs C16Model C16State C16Proofs C16ProofsMc C16StateDefs
-  C16InitProofs C16ShrinkProofs C16HistProofs.
+  C16InitProofs C16ShrinkProofs C16HistProofs C16Linear C16LinearProofs.
 Import ListNotations.
 Open Scope Q_scope.
 
@@ -45,4 +45,14 @@ Proof.
   split; [exists wlin0; split; [exact A1|]; split; [exact A2|]; split; [exact A3 | exact A5]|].
   split; [|repeat constructor].
   cbn [wf_mrun wf_mop]. split; [cbn; lia|]. split; [exact I|]. split; [exact I | exact I].
+Qed.
+
+Lemma w_linear_hyps : BoxOK 1 (fun _ => 0) /\ SimOK 3 1 (fun _ => 0) /\ box_kind LWW /\
+  Wbook 3 LWW 1 2 (fun _ => 0%nat) (fun _ _ => 1) (fun _ _ => 0) (fun _ _ => 0) /\
+  BLinv 1 2 1 (fun _ => 1) (fun _ _ => 1) (fun _ => 0, fun _ => 0).
+Proof.
+  split; [intros c; lra|]. split; [split; [intros; lra | split; vm_compute; discriminate]|]. split; [left; reflexivity|].
+  split.
+  - intros c d Hc Hd. cbn [sumn]. rewrite wstep_zero. ring.
+  - split; [intros i; cbn [fst]; lra | intros d Hd; cbn [fst snd sumn]; ring].
 Qed.
